@@ -10,8 +10,8 @@ included) and cost model, every estimate and weight factor, every termination mo
 schedule: `result_iff_reachable_local`, `tree_is_reachable_set_local`, and for concrete
 configurations `Config.RestrictionLocal` = consistent adjacency + no turn-restriction model
 (`config_nopath_iff_unreachable`, `config_tree_reachable`), vertex- and edge-oriented
-(`config_edge_oriented_…`).  Calls that fail fail the run with their own error kind, and every
-theorem is about runs that returned a result or "no path"; no component answers "no path" itself
+(`config_edge_oriented_…`).  Calls that fail fail the run with their own error kind, and every theorem
+is about runs that returned a result or "no path"; no component answers "no path" itself
 (`config_no_spurious_nopath`).  The failing calls: a missing delay-table entry, a heading outside the
 turn classes, a short state vector; `create_time` on a **zero length** or a **zero table speed**
 under the speed-table model (C09 demands that rejection — `Time::create` has no answer for a
